@@ -30,8 +30,9 @@ if os.path.isdir(hy):
     with core.Lock("cargo_yara"):
         if not os.path.exists(os.path.join(hy, 'Cargo.lock')):
             shutil.copy(os.path.join(core.REPO, 'Cargo.lock'), os.path.join(hy, 'Cargo.lock'))
-        rc, out = core.sh(["cargo", "build", "--offline", "--quiet"], cwd=hy, timeout=1500,
-                          env={"CARGO_NET_OFFLINE": "true", "RUSTFLAGS": "--cfg boreal_verif"})
+        rc, out = core.cargo_build(["cargo", "build", "--offline", "--quiet"], os.path.abspath(hy), "debug",
+                                   ("boreal", "boreal-parser", "bvy"), timeout=1500,
+                                   env={"CARGO_NET_OFFLINE": "true", "RUSTFLAGS": "--cfg boreal_verif"})
     print(out[-2000:])
     if rc != 0:
         print("setup: WARNING harness_yara does not build")
